@@ -1039,6 +1039,122 @@ def main(run):
             run.oracle_violation("scenario raised %s: %s" % (type(e).__name__, e), {"kind": "run", "index": idx},
                                  observed=traceback.format_exc()[-1500:])
 
+    # ---------------- supplementary exploration (oracle only): values the model treats as atoms or does not have ----
+    # tuples holding mutables, frozensets, deques, bytearrays, 2-D / bool / complex numpy contents, nested tuple content
+    import collections
+
+    def gsnap(x, stack=()):
+        """generic by-value snapshot"""
+        if id(x) in stack:
+            return ("cycle",)
+        st2 = stack + (id(x),)
+        if isinstance(x, numpy.ndarray):
+            return ("nd", type(x).__name__, str(x.dtype), x.shape, repr(x.tolist()), gsnap(getattr(x, "__dict__", None), st2))
+        if isinstance(x, array.array):
+            return ("arr", type(x).__name__, x.typecode, list(x), gsnap(getattr(x, "__dict__", None), st2))
+        if isinstance(x, base.Fitness):
+            return ("fit", type(x).__name__, x.valid, repr(x.values), gsnap(getattr(x, "constraint_violation", None), st2))
+        if isinstance(x, (list, tuple, collections.deque)):
+            return (type(x).__name__, tuple(gsnap(e, st2) for e in x), gsnap(getattr(x, "__dict__", None), st2))
+        if isinstance(x, (set, frozenset)):
+            return (type(x).__name__, tuple(sorted((gsnap(e, st2) for e in x), key=repr)), gsnap(getattr(x, "__dict__", None), st2))
+        if isinstance(x, dict):
+            return (type(x).__name__, tuple((gsnap(k, st2), gsnap(v, st2)) for k, v in x.items()), gsnap(getattr(x, "__dict__", None), st2))
+        if isinstance(x, type):
+            return ("type", x.__name__)
+        if is_node(x):
+            return ("node", node_atom(x))
+        return (type(x).__name__, repr(x))
+
+    def gmut(x, acc=None):
+        """id -> mutable object, generic, not through classes"""
+        acc = {} if acc is None else acc
+        if isinstance(x, type) or is_node(x) or id(x) in acc:
+            return acc
+        if isinstance(x, (list, dict, set, collections.deque, bytearray, numpy.ndarray, array.array, base.Fitness)):
+            acc[id(x)] = x
+        if isinstance(x, (list, tuple, set, frozenset, collections.deque)):
+            for e in x:
+                gmut(e, acc)
+        elif isinstance(x, dict):
+            for k, v in x.items():
+                gmut(v, acc)
+        if hasattr(x, "__dict__") and not isinstance(x, type):
+            for v in vars(x).values():
+                gmut(v, acc)
+        return acc
+
+    def gwrite(o):
+        if isinstance(o, base.Fitness):
+            o.values = tuple(7.0 for _ in o.weights)
+        elif isinstance(o, numpy.ndarray):
+            if o.size:
+                o.flat[0] = not o.flat[0] if o.dtype == bool else o.flat[0] + 1
+            else:
+                o.x40 = 1
+        elif isinstance(o, array.array):
+            o.append(1 if o.typecode not in "fd" else 1.5)
+        elif isinstance(o, bytearray):
+            o.append(1)
+        elif isinstance(o, (list, collections.deque)):
+            list.append(o, "w") if isinstance(o, list) else o.append("w")
+        elif isinstance(o, set):
+            o.add("w")
+        elif isinstance(o, dict):
+            dict.__setitem__(o, "w", 1)
+
+    def exotic(idx):
+        bases = [(list, None, [1, (2, [3]), [4]]), (array.array, "d", [1.5, 2.0]), (array.array, "b", [1, -2]),
+                 (numpy.ndarray, None, [[1, 2], [3, 4]]), (numpy.ndarray, None, [True, False, True]),
+                 (numpy.ndarray, None, [1.5 + 2j]), (numpy.ndarray, None, [[[1.0]], [[2.0]]]), (numpy.ndarray, None, []),
+                 (set, None, [1, (2, 3), frozenset([4])]), (dict, None, {"a": ([1], 2), (1, 2): {3: [4]}}),
+                 (gp.PrimitiveTree, None, [py_atom(6000), py_atom(6002), py_atom(6105)])]
+        pybase, tc, content = bases[idx % len(bases)]
+        fn_, nm = new_name(), new_name()
+        creator.create(fn_, base.Fitness, weights=rng.choice(WEIGHTS))
+        kw = {"fitness": getattr(creator, fn_), "strategy": rng.choice([list, dict, collections.deque, bytearray])}
+        if tc:
+            kw["typecode"] = tc
+        creator.create(nm, pybase, **kw)
+        x = getattr(creator, nm)(content)
+        if rng.random() < 0.7:
+            x.fitness.values = tuple(rng.randint(-8, 8) / 4.0 for _ in x.fitness.weights)
+        x.x7 = rng.choice([([1, 2], "a"), {"k": ([1], (2, [3]))}, [frozenset([1]), (1, [2])], numpy.array([[1.0, 2.0], [3.0, 4.0]]),
+                           collections.deque([[1], 2]), bytearray(b"ab"), [numpy.array([1, 2]), array.array("i", [3])]])
+        x.x8 = x.x7 if rng.random() < 0.4 else None
+        case = {"kind": "exotic", "base": pybase.__name__, "typecode": tc, "content": repr(content), "x7": repr(x.x7)}
+        run.note_case(case, True)
+        copies = [("clone", toolbox.clone(x)), ("clone of clone", toolbox.clone(toolbox.clone(x)))]
+        for proto in range(6):
+            try:
+                copies.append(("pickle protocol %d" % proto, pickle.loads(pickle.dumps(x, proto))))
+            except Exception as e:  # noqa
+                run.oracle_violation("pickle round trip (protocol %d) raised %s: %s" % (proto, type(e).__name__, e), case)
+        ref = gsnap(x)
+        for how, c in copies:
+            if gsnap(c) != ref:
+                run.oracle_violation("%s: copy differs (content / fitness / attributes)" % how, case, observed=[repr(ref), repr(gsnap(c))])
+            if (c.x8 is c.x7) != (x.x8 is x.x7):
+                run.oracle_violation("%s: sharing between two attributes not kept" % how, case)
+            mx, mc = gmut(x), gmut(c)
+            if [i for i in mx if i in mc]:
+                run.oracle_violation("%s: copy shares mutable objects with the original" % how, case)
+        for how, c in copies:
+            for a, b in ((x, c), (c, x)):
+                for o in list(gmut(a).values()):
+                    before = gsnap(b)
+                    gwrite(o)
+                    if gsnap(b) != before:
+                        run.oracle_violation("%s: changing a %s reachable from one object changed the other" % (how, type(o).__name__), case)
+
+    for idx in range(run.scale(44, 440)):
+        try:
+            exotic(idx)
+        except Exception as e:  # noqa
+            import traceback
+            run.oracle_violation("exploration scenario raised %s: %s" % (type(e).__name__, e), {"kind": "exotic", "index": idx},
+                                 observed=traceback.format_exc()[-1500:])
+
     # ---------------- toolbox scenarios ----------------
     lambdas = {100: (lambda *a, **k: ("call", 100, tuple(a), tuple(sorted(k.items(), key=lambda p: int(p[0][1:]))))),
                101: (lambda *a, **k: ("call", 101, tuple(a), tuple(sorted(k.items(), key=lambda p: int(p[0][1:])))))}
@@ -1063,9 +1179,23 @@ def main(run):
             ks = rng.sample(range(4), rng.randint(0, 2))
             return [(k, rng.randint(-5, 5)) for k in ks]
 
+        def do_call(al):
+            args, kw = rargs(), rkw()
+            kwd = dict(("k%d" % k, v) for k, v in kw)
+            got = getattr(tb, "al%d" % al)(*args, **kwd)
+            t, fa, fk, _ = spec[al]
+            want = t(*(tuple(fa) + tuple(args)), **dict(fk, **kwd))
+            log.append(["call", al, args, kw, jres(got)])
+            if got != want:
+                run.oracle_violation("alias call is not function(*frozen, *call args, **{frozen kw, call kw})", case,
+                                     observed=[jres(got), jres(want)])
+            ops.append("TCall %d %s %s %s" % (al, czs(args), ckw(kw), cres(got)))
+
         for _ in range(rng.randint(4, 10)):
             r = rng.random()
             al = rng.randint(2, 5)
+            if spec and not (r < 0.3 or 0.55 <= r < 0.62):
+                al = rng.choice(sorted(spec))           # decorate / unregister / call / pickle: an existing alias
             name = "al%d" % al
             if r < 0.3 or not spec:
                 args, kw = rargs(), rkw()
@@ -1093,7 +1223,7 @@ def main(run):
                     run.oracle_violation("alias does not carry the alias name / the function's doc", case)
             elif r < 0.45:
                 if al in spec:
-                    ds = [rng.randint(0, 5) for _ in range(rng.randint(1, 2))]
+                    ds = rng.sample(range(6), rng.randint(1, 3))
                     tb.decorate(name, *[deco(d) for d in ds])
                     t, a, k, _ = spec[al]
                     for d in ds:
@@ -1101,6 +1231,7 @@ def main(run):
                     spec[al] = (t, a, k, False)
                     ops.append("TDec %d [%s]" % (al, ";".join("%d%%nat" % d for d in ds)))
                     log.append(["decorate", al, ds])
+                    do_call(al)
             elif r < 0.55:
                 if al in spec:
                     tb.unregister(name)
@@ -1113,16 +1244,7 @@ def main(run):
                     run.oracle_violation("alias presence wrong after register/unregister", case)
             elif r < 0.9:
                 if al in spec:
-                    args, kw = rargs(), rkw()
-                    kwd = dict(("k%d" % k, v) for k, v in kw)
-                    got = getattr(tb, name)(*args, **kwd)
-                    t, fa, fk, _ = spec[al]
-                    want = t(*(tuple(fa) + tuple(args)), **dict(fk, **kwd))
-                    log.append(["call", al, args, kw, jres(got)])
-                    if got != want:
-                        run.oracle_violation("alias call is not function(*frozen, *call args, **{frozen kw, call kw})", case,
-                                             observed=[jres(got), jres(want)])
-                    ops.append("TCall %d %s %s %s" % (al, czs(args), ckw(kw), cres(got)))
+                    do_call(al)
             else:
                 if al in spec:
                     alias = getattr(tb, name)
